@@ -340,6 +340,12 @@ func (dec *xmlDecoder) decodeXML(root *xmlNode) error {
 		started = true
 	}
 
+	if elem != nil && elem.parent != nil {
+		// raw tokens are not checked for balance by the xml library: without this, everything
+		// inside an element that is never closed (a truncated file) is silently dropped
+		return fmt.Errorf("invalid XML: unexpected end of input, element <%v> is not closed", elem.label)
+	}
+
 	return nil
 }
 
